@@ -211,6 +211,8 @@ LIB_METHODS = {
     ('vec_size', 'cend'): ('vec_size_end', ()),
     ('vec_size', 'erase'): ('vec_size_erase', ()),
     ('weak_ptr_size', 'expired'): ('weak_ptr_size_expired', ()),
+    ('weak_ptr_size', 'lock'): ('weak_ptr_size_lock', ()),
+    ('shared_ptr_size', 'operator bool'): ('shared_ptr_size_bool', ()),
     ('shared_ptr_size', 'use_count'): ('shared_ptr_size_use_count', ()),
     ('shared_ptr_size', 'reset'): ('shared_ptr_size_reset', ()),
     ('unique_ptr_MCSLock', 'release'): ('unique_ptr_MCSLock_release', ()),
@@ -224,6 +226,7 @@ LIB_FUNCS = {
     'sleep_for': 'verif_sleep_for',
     'pow': 'verif_pow',
     'log': 'verif_log',
+    'fabs': 'verif_fabs',
     'get_id': 'verif_this_thread_get_id',
     'sort': 'vec_size_sort_desc',
     'unique': 'vec_size_unique',
@@ -883,14 +886,52 @@ class Emitter:
         for nm, ct in reversed(self.dtor_locals):
             self.w('%s_dtor(&%s); /* implicit destruction of the local at scope exit */' % (ct, nm), ind)
 
+    def loop_locals(self, *parts):
+        """C names of the locals/parameters (declared before the loop) that the loop assigns directly: they belong to the
+        loop's assigns clause whatever the contract author wrote (spec.splice adds the missing ones), so that a new local
+        counter neither breaks the frame of a loop contract nor hides the loop's exit path"""
+        found = []
+
+        def target(e):
+            e = self.unwrap(e)
+            while e.get('kind') in ('ImplicitCastExpr', 'ParenExpr') and e.get('inner'):
+                e = self.unwrap(e['inner'][0])
+            if e.get('kind') == 'DeclRefExpr':
+                d = e.get('referencedDecl', {})
+                if d.get('kind') in ('VarDecl', 'ParmVarDecl') and d.get('id') in self.names and d['id'] not in self.refvars:
+                    nm = self.names[d['id']]
+                    if re.match(r'^[A-Za-z_]\w*$', nm) and nm not in found and d['id'] not in self.tu.globals:
+                        found.append(nm)
+
+        def walk(n):
+            if not isinstance(n, dict):
+                return
+            k = n.get('kind')
+            if k in ('BinaryOperator', 'CompoundAssignOperator') and (k == 'CompoundAssignOperator' or n.get('opcode') == '='):
+                target(n['inner'][0])
+            elif k == 'UnaryOperator' and n.get('opcode') in ('++', '--'):
+                target(n['inner'][0])
+            elif k == 'LambdaExpr':
+                return
+            for c in n.get('inner', []) or []:
+                walk(c)
+        for p in parts:
+            if p:
+                walk(p)
+        return (' locals: ' + ' '.join(found)) if found else ''
+
     def loop_body(self, body, ind):
         self.loop_scopes.append(len(self.scopes))
         self.block(body, ind)
         self.loop_scopes.pop()
 
-    def check_jump(self, s):
-        if self.loop_scopes and any(self.scopes[self.loop_scopes[-1]:]):
-            die('break/continue out of a block that holds a local with a destructor is not modelled', s)
+    def check_jump(self, s, ind=0):
+        """break/continue leave every block opened inside the loop body: their locals are destroyed first"""
+        if not self.loop_scopes:
+            return
+        for scope in reversed(self.scopes[self.loop_scopes[-1]:]):
+            for nm, ct in reversed(scope):
+                self.w('%s_dtor(&%s); /* implicit destruction of the local when the jump leaves its block */' % (ct, nm), ind)
 
     def stmt(self, s, ind):
         k = s.get('kind')
@@ -943,7 +984,7 @@ class Emitter:
             self.loop_no += 1
             self.stat('loops')
             self.w('while (%s)' % self.cond(parts[0]), ind)
-            self.w('/*@LOOP %s %d*/' % (self.cur.cname, no), ind)
+            self.w('/*@LOOP %s %d%s*/' % (self.cur.cname, no, self.loop_locals(parts[0], parts[-1])), ind)
             self.loop_body(parts[-1], ind)
         elif k == 'DoStmt':
             parts = s['inner']
@@ -952,7 +993,7 @@ class Emitter:
             self.stat('loops')
             self.w('do', ind)
             # CBMC syntax: the loop contract of a do-while stands between `do` and the body
-            self.w('/*@LOOP %s %d*/' % (self.cur.cname, no), ind)
+            self.w('/*@LOOP %s %d%s*/' % (self.cur.cname, no, self.loop_locals(parts[0], parts[1])), ind)
             self.loop_body(parts[0], ind)
             c = self.cond(parts[1])
             self.w('while (%s);' % c, ind)
@@ -967,15 +1008,19 @@ class Emitter:
             c = self.cond(cnd) if cnd and cnd.get('kind') else '1'
             i = self.expr(inc) if inc and inc.get('kind') else ''
             self.w('for (; %s; %s)' % (c, i), ind + 1)
-            self.w('/*@LOOP %s %d*/' % (self.cur.cname, no), ind + 1)
+            self.w('/*@LOOP %s %d%s*/' % (self.cur.cname, no, self.loop_locals(cnd, inc, body)), ind + 1)
             self.loop_body(body, ind + 1)
             self.w('}', ind)
         elif k == 'BreakStmt':
-            self.check_jump(s)
-            self.w('break;', ind)
+            self.w('{', ind)
+            self.check_jump(s, ind + 1)
+            self.w('break;', ind + 1)
+            self.w('}', ind)
         elif k == 'ContinueStmt':
-            self.check_jump(s)
-            self.w('continue;', ind)
+            self.w('{', ind)
+            self.check_jump(s, ind + 1)
+            self.w('continue;', ind + 1)
+            self.w('}', ind)
         elif k == 'NullStmt':
             self.w(';', ind)
         elif k == 'GotoStmt':
@@ -1465,6 +1510,16 @@ class Emitter:
             if a1.get('kind') != 'CXXNullPtrLiteralExpr':
                 die('std::exchange on a shared_ptr with a non-null new value', e)
             return 'shared_ptr_size_exchange_null(%s)' % self.addr(args[0])
+        if rn == 'swap' and len(args) == 2:
+            # std::swap of two plain pointer / integer objects
+            ct = self.ctype_of_expr(args[0])
+            if ct != self.ctype_of_expr(args[1]):
+                die('std::swap of different types', e)
+            if ct.endswith('*'):
+                return 'verif_swap_ptr((void **)%s, (void **)%s)' % (self.addr(args[0]), self.addr(args[1]))
+            if ct in ('uint64_t', 'size_t', 'uint32_t', 'int64_t', 'int32_t', '_Bool'):
+                return 'verif_swap_%s(%s, %s)' % (ct, self.addr(args[0]), self.addr(args[1]))
+            die('std::swap on objects of type %s' % ct, e)
         if rn == 'exchange' and len(args) == 2:
             # std::exchange on a plain pointer / integer object: the old value is returned, the new one stored
             ct = self.ctype_of_expr(args[0])
